@@ -3,6 +3,7 @@ package main
 import (
 	"encoding/json"
 	"fmt"
+	"go/constant"
 	"os"
 	"sort"
 	"strings"
@@ -229,7 +230,9 @@ func staticAssertSites(entry *ssa.Function) []string {
 					if callee := c.StaticCallee(); callee != nil {
 						if callee.String() == modPath+"/zzverifrt.Assert" {
 							if k, ok := c.Args[1].(*ssa.Const); ok {
-								sites[strings.Trim(k.Value.ExactString(), "\"")] = true
+								if k.Value != nil && k.Value.Kind() == constant.String {
+									sites[constant.StringVal(k.Value)] = true
+								}
 							}
 						} else {
 							walk(callee)
